@@ -241,6 +241,10 @@ def pow_(a, e):
             return r if n >= 0 else div(lift(1), r)
         if ev == Fraction(1, 2):
             return sqrt(a)
+        if ev == Fraction(1, 3):
+            a = X(a)
+            nan = tm.or_(a.nan, a.ninf, tm.and_(a.finite, tm.lt(a.val, ZERO)))
+            return XReal(tm.cbrt(tm.ite(tm.ge(a.val, ZERO), a.val, ZERO)), nan, a.pinf, FALSE)
         raise cx.EngineUnsupported("fractional power in extended-real mode")
     return cx.spow(_r(a), e_l)
 
